@@ -476,6 +476,7 @@ func genConsCase(r *Rand, tier string, w *bufio.Writer) {
 		}
 		emit("seal %d %d %s", e, sealFrame[e], valsStr(ids, nws))
 	}
+	restartHeavy := r.Chance(1, 8)
 	ninst := 2 + r.Intn(2)
 	for k := 0; k < ninst; k++ {
 		emit("inst %d %d", k, (k+r.Intn(4))%4)
@@ -680,8 +681,12 @@ func genConsCase(r *Rand, tier string, w *bufio.Writer) {
 				emit("fc %d %d %d", k, a, b)
 			}
 		}
-		if r.Chance(1, 25) {
+		if r.Chance(1, 25) || restartHeavy {
+			// restart-heavy scenarios restart an instance at every event boundary (C08)
 			emit("restart %d", r.Intn(ninst))
+			if restartHeavy {
+				emit("restart 0")
+			}
 		}
 		if r.Chance(1, 30) {
 			emit("state %d", r.Intn(ninst))
